@@ -304,7 +304,6 @@ Definition observe (m : membership) : membership :=
 
 (* ---- the executable instance used by the differential check ---- *)
 Definition handle_ascii := handle norm_ascii.
-Definition rule_vector_ascii := rule_vector norm_ascii.
 Definition address_equal_ascii := address_equal norm_ascii.
 Definition run_ascii := run norm_ascii.
 
